@@ -2,7 +2,7 @@
     multi-client half: the model (Model/MultiClient.v) is run over the same
     interleaving the real code executed; after every step the result class
     and the abstracted state observed on disk are compared with the model's. *)
-From Rocfl Require Import Base.Bytes Model.VersionNum Model.Known Model.MultiClient Model.KnownC14.
+From Rocfl Require Import Base.Bytes Model.VersionNum Model.MultiClient Model.KnownC14.
 Open Scope N_scope.
 
 (** finite-map equality of version states (logical path -> digest token) *)
@@ -63,22 +63,21 @@ Definition stg_matches (st : mc) (x : skey * obs_stg) : bool :=
 Definition stag_matches (st : mc) (obs : list (skey * obs_stg)) : bool :=
   Nat.eqb (List.length (mc_stag st)) (List.length obs) && forallb (stg_matches st) obs.
 
-(** per step: (disagreement code, step is in the known class recreated-lineage,
-    step is in the overflow class); code = 1 result class + 2 main repository + 4 staging *)
-Fixpoint check_mc (dbg : bool) (st : mc) (es : list event) (obs : list obs_step) : list (N * bool * bool) :=
+(** per step: (disagreement code, step is in the known class recreated-lineage);
+    code = 1 result class + 2 main repository + 4 staging *)
+Fixpoint check_mc (dbg : bool) (st : mc) (es : list event) (obs : list obs_step) : list (N * bool) :=
   match es, obs with
   | (c, o) :: es', (rc, m, s) :: obs' =>
       let k := step_known st c o in
-      let v := step_overflow st c o in
       let st' := fst (step dbg st c o) in
       let r := snd (step dbg st c o) in
       let code := (if rc_of r =? rc then 0 else 1) + (if main_matches st' m then 0 else 2)
                   + (if stag_matches st' s then 0 else 4) in
-      (code, k, v) :: check_mc dbg st' es' obs'
+      (code, k) :: check_mc dbg st' es' obs'
   | _, _ => []
   end.
 
-Definition check_run (dbg : bool) (es : list event) (obs : list obs_step) : list (N * bool * bool) :=
+Definition check_run (dbg : bool) (es : list event) (obs : list obs_step) : list (N * bool) :=
   check_mc dbg mc_init es obs.
 
 (** what the model predicts for a run (used in diagnostics only) *)
